@@ -22,8 +22,8 @@ def P(name, ty, d=False):
     return {'name': name, 'ty': ty, 'def': d}
 
 
-def O(tag, params, fn=True, me=False, star='none', nokw=False):
-    return {'tag': tag, 'fn': fn, 'me': me, 'params': tuple(params), 'star': star, 'nokw': nokw}
+def O(tag, params, fn=True, me=False, star='none', nokw=False, kwbad=False):
+    return {'tag': tag, 'fn': fn, 'me': me, 'params': tuple(params), 'star': star, 'nokw': nokw, 'kwbad': kwbad}
 
 
 def L(ovs, excl=False):
@@ -77,6 +77,10 @@ CURATED = [
     [L([O('nkstar', [], star='Any', nokw=True)])],
     # keyword names differ between overloads
     [L([O('xy', [P('x', 'A'), P('y', 'A')]), O('yx', [P('y', 'A'), P('x', 'A')])])],
+    # a keyword-only parameter whose default does not fit its declared type takes its overload out of every call
+    [L([O('near', [P('x', 'A')], kwbad=True)]), L([O('far', [P('x', 'A')])])],
+    [L([O('bad', [P('x', 'B')], kwbad=True), O('good', [P('x', 'A')])])],
+    [L([O('bad', [P('x', 'A'), P('y', 'Int', True)], kwbad=True)])],
     # a parameter declared with a union of classes (like the library's Number): less specific than its members, more than their ancestors
     [L([O('u', [P('x', 'BC')]), O('a', [P('x', 'A')])])],
     [L([O('u', [P('x', 'BC')]), O('b', [P('x', 'B')])])],
@@ -121,7 +125,7 @@ def random_family(rng):
             vis = [p for p in params if p['ty'] != 'hidden']
             if kind in 'me' and vis and vis[0]['ty'] == 'Lazy':
                 vis[0]['ty'] = 'Any'         # the receiver of a method is always a value
-            ovs.append(O('t%d' % tagn, params, fn=kind in 'fe', me=kind in 'me', star=star, nokw=rng.random() < 0.12))
+            ovs.append(O('t%d' % tagn, params, fn=kind in 'fe', me=kind in 'me', star=star, nokw=rng.random() < 0.12, kwbad=rng.random() < 0.06))
         # a method needs a first visible parameter that is not *args-only
         ovs = [o for o in ovs if not (o['me'] and not [p for p in o['params'] if p['ty'] != 'hidden'])] or \
               [O('t%d' % tagn, [P('x', 'Any')])]
@@ -244,10 +248,10 @@ def build_fd(o, ran):
         pnames.append(nm)
     if o['star'] != 'none':
         sig.append('*rest')
-    if seen_default:
+    if seen_default or o.get('kwbad'):
         if o['star'] == 'none':
             sig.append('*')
-        sig.append('kwo=10')
+        sig.append('kwo=10' if not o.get('kwbad') else 'kwo=None')
     key = ', '.join(sig)
     if key not in _PAYLOADS:
         env = {'_TAG_OF': _TAG_OF, '_RAN': []}
@@ -273,6 +277,7 @@ def _ptype(o, n, pnames, lat, yaqltypes):
     if n == 'fd__':
         return yaqltypes.FunctionDefinition()
     if n == 'kwo':
+        # (kwbad: the declared type refuses the parameter's own default)
         return yaqltypes.PythonType(int, nullable=False)
     if n == 'rest':
         return yaqltypes.PythonType(lat.cls[o['star']], nullable=o['star'] == 'Any')
